@@ -11,7 +11,7 @@ from ptstat import AnalysisError
 from ptstat.symval import SymObj, Phi, SymRaise, Vec
 from ptstat.symlib import interp_f, vec_f
 from spec import neutron as spec
-from .common import eq, fsite, folder, _s, constants_lint
+from .common import eq, fsite, folder, _s, constants_lint, raises
 from .nworld import neutron_world
 
 EXPLANATION = (
@@ -105,7 +105,12 @@ def run(ctx):
     eq(ctx, "R3", "constant branch returns the tabulated total cross section", tot, s[0], sbw)
     nH1 = I.getattr(A["H1"], "neutron")
     bce, tote = I.call(I.getattr(nH1, "scattering_by_wavelength"), [lam], {})
-    XP, FP = I.heap[nH1.id]["nsf_table"]
+    # what the lookup has to be, from the generated table (energies in eV -> wavelength in Angstrom, increasing wavelength)
+    from .nworld import ed_rows
+    EF_ = I.global_name("nsf", "ENERGY_FACTOR")
+    rows_ = list(reversed(ed_rows("H1")))
+    XP = Vec([sp.sqrt(EF_ / (1000 * r_[0])) for r_ in rows_])
+    FP = Vec([r_[1] + sp.I * r_[2] for r_ in rows_])
     apps = [a for a in sp.sympify(bce).atoms(sp.Function) if a.func == interp_f]
     ok = len(apps) == 1 and sp.sympify(bce) == apps[0]
     ctx.check(ok, "R3", "table branch is a single interpolation", f"extracted {_s(bce)}", sbw)
@@ -113,8 +118,10 @@ def run(ctx):
         x, xp, fp, left, right = apps[0].args
         clamp = sp.Symbol("clamp")
         ctx.check(x == lam, "R3", "interpolation is evaluated at the wavelength", f"evaluated at {x}", sbw)
-        ctx.check(xp == vec_f(*XP.items) and fp == vec_f(*FP.items), "R3",
-                  "interpolation axis is nsf_table[0], values nsf_table[1]", f"xp={xp}, fp={fp}", sbw)
+        same_nodes = len(xp.args) == 3 and len(fp.args) == 3 and all(sp.simplify(a_ - b_) == 0 for a_, b_ in zip(xp.args, XP.items)) \
+            and all(sp.simplify(a_ - b_) == 0 for a_, b_ in zip(fp.args, FP.items))
+        ctx.check(same_nodes, "R3",
+                  "interpolation nodes are the table's wavelengths (increasing) with the complex scattering length of the same row", f"xp={xp}, fp={fp}", sbw)
         ctx.check(left in (clamp, FP.items[0]) and right in (clamp, FP.items[-1]), "R3",
                   "outside the table the end-point values are used (numpy default, or the same ends given explicitly)",
                   f"left={left}, right={right}: values outside the table are not the nearest end point", sbw)
@@ -214,7 +221,7 @@ def run(ctx):
 def _r4(ctx, R="R4"):
     """energy_dependent_init on a generic table: units, ordering, natural Lu."""
     from ptstat.world import World
-    E = sp.symbols("E1:4", positive=True)
+    E = (sp.Integer(1), sp.Integer(2), sp.Integer(4))       # eV, increasing like every real table (checked below)
     rr = sp.symbols("r1:4", real=True)
     ii = sp.symbols("i1:4", real=True)
     gen = {("Lu", sp.Integer(176)): [(E[k], rr[k], ii[k], sp.Integer(0)) for k in range(3)],
@@ -228,6 +235,7 @@ def _r4(ctx, R="R4"):
         atom = w.element(sym) if A_ is None else w.isotope(sym, A_)
         rec = I.instantiate(NC, [], {}, name=f"nsf_{sym}{A_ or ''}")
         w.set(atom, neutron=rec)
+        w.set(rec, is_energy_dependent=A_ != 175)
         if A_:
             w.set(atom, _abundance=sp.Symbol(f"ab{A_}", positive=True))
         recs[(sym, A_)] = rec
@@ -236,29 +244,27 @@ def _r4(ctx, R="R4"):
     I.call(I.global_name("nsf", "energy_dependent_init"), [w.table], {})
     EF = I.global_name("nsf", "ENERGY_FACTOR")
     lamk = [sp.sqrt(EF / (1000 * e)) for e in E]   # eV -> meV -> Angstrom (documented: energy in meV)
-    for key, off in ((("Lu", 176), 0), (("Gd", None), 1)):
-        tab = I.heap[recs[key].id].get("nsf_table")
-        good = isinstance(tab, tuple) and len(tab) == 2 and all(isinstance(t, Vec) and len(t) == 3 for t in tab)
-        ctx.check(good, R, f"{key[0]}{key[1] or ''}: nsf_table is a (wavelength, b_c) pair of arrays",
-                  f"stored {_s(tab)}", site)
-        if not good:
+    lam = sp.Symbol("lam", positive=True)
+    a5, a6 = sp.Symbol("ab175", positive=True), sp.Symbol("ab176", positive=True)
+    want = {("Lu", 176): [rr[k] + sp.I * ii[k] for k in range(3)],
+            ("Gd", None): [rr[k] + 1 + sp.I * (ii[k] + 1) for k in range(3)],
+            ("Lu", None): [(b175 * a5 + (rr[k] + sp.I * ii[k]) * a6) / 100 for k in range(3)]}
+    # observed through the lookup the calculators use (whatever the initialiser stores for it)
+    for key, vals in want.items():
+        label = f"{key[0]}{key[1] or ''}" + (" (natural: (b175*ab175 + b176*ab176)/100 on the Lu-176 grid)" if key == ("Lu", None) else "")
+        r_ = raises(lambda: I.call(I.getattr(recs[key], "scattering_by_wavelength"), [lam], {}))
+        if r_ is not None:
+            ctx.fail(R, f"{label}: lookup at a wavelength", f"raises {r_}", site)
             continue
-        xp, fp = tab
+        bce, _tot = I.call(I.getattr(recs[key], "scattering_by_wavelength"), [lam], {})
+        apps = [a_ for a_ in sp.sympify(bce).atoms(sp.Function) if a_.func == interp_f]
+        if len(apps) != 1 or sp.sympify(bce) != apps[0] or len(apps[0].args[1].args) != 3 or len(apps[0].args[2].args) != 3:
+            ctx.fail(R, f"{label}: the scattering length is one interpolation over the three tabulated nodes", f"extracted {_s(bce)}", site)
+            continue
+        xp, fp = apps[0].args[1].args, apps[0].args[2].args
         for k in range(3):
-            eq(ctx, R, f"{key[0]}{key[1] or ''}: wavelength node {k} = neutron_wavelength(1000*E) reversed",
-               xp.items[k], lamk[2 - k], site)
-            eq(ctx, R, f"{key[0]}{key[1] or ''}: b_c node {k} = Re + i Im of the same (reversed) row",
-               fp.items[k], rr[2 - k] + off + sp.I * (ii[2 - k] + off), site)
-    # natural Lu
-    tab = I.heap[recs[("Lu", None)].id].get("nsf_table")
-    good = isinstance(tab, tuple) and len(tab) == 2 and isinstance(tab[1], Vec)
-    ctx.check(good, R, "natural Lu gets a mixed table", f"stored {_s(tab)}", site)
-    if good:
-        a5, a6 = sp.Symbol("ab175", positive=True), sp.Symbol("ab176", positive=True)
-        for k in range(3):
-            eq(ctx, R, f"Lu natural node {k} = (b175*ab175 + b176*ab176)/100 on the Lu-176 grid",
-               tab[1].items[k], (b175 * a5 + (rr[2 - k] + sp.I * ii[2 - k]) * a6) / 100, site)
-            eq(ctx, R, f"Lu natural wavelength node {k}", tab[0].items[k], lamk[2 - k], site)
+            eq(ctx, R, f"{label}: wavelength node {k} = neutron_wavelength(1000*E), increasing wavelength", xp[k], lamk[2 - k], site)
+            eq(ctx, R, f"{label}: b_c node {k} = Re + i Im of the row with that energy", fp[k], vals[2 - k], site)
     # neutron_wavelength strictly decreasing in energy
     Es = sp.Symbol("E", positive=True)
     nw = I.call(I.global_name("nsf", "neutron_wavelength"), [Es], {})
